@@ -501,7 +501,8 @@ func (p *Prog) Facts(fn *ssa.Function) map[*ssa.BasicBlock]FactSet {
 		return in
 	}
 	in[fn.Blocks[0]] = FactSet{}
-	out := func(b *ssa.BasicBlock, succIdx int) FactSet {
+	var outFn func(b *ssa.BasicBlock, succIdx int, depth int) FactSet
+	outFn = func(b *ssa.BasicBlock, succIdx int, depth int) FactSet {
 		s := FactSet{}
 		for f := range in[b] {
 			if vb := defBlock(f.Cond); vb == b {
@@ -512,10 +513,44 @@ func (p *Prog) Facts(fn *ssa.Function) map[*ssa.BasicBlock]FactSet {
 		if len(b.Instrs) > 0 {
 			if iff, ok := b.Instrs[len(b.Instrs)-1].(*ssa.If); ok && b.Succs[0] != b.Succs[1] {
 				addCond(s, iff.Cond, succIdx == 0)
+				// short-circuit conditions (`a && b`, `a || b`) are phis of a boolean constant and the
+				// last operand: when the phi's value excludes all but one incoming edge, everything
+				// known on that edge holds too.
+				if phi, ok := iff.Cond.(*ssa.Phi); ok && phi.Block() == b && depth < 6 {
+					val := succIdx == 0
+					cand := -1
+					n := 0
+					for i, e := range phi.Edges {
+						if c, isConst := ConstBool(e); isConst && c != val {
+							continue
+						}
+						cand = i
+						n++
+					}
+					if n == 1 && cand < len(b.Preds) {
+						pred := b.Preds[cand]
+						if in[pred] != nil {
+							for si, sb := range pred.Succs {
+								if sb == b {
+									for f := range outFn(pred, si, depth+1) {
+										if vb := defBlock(f.Cond); vb == b {
+											continue
+										}
+										s[f] = true
+									}
+								}
+							}
+						}
+						if _, isConst := phi.Edges[cand].(*ssa.Const); !isConst {
+							addCond(s, phi.Edges[cand], val)
+						}
+					}
+				}
 			}
 		}
 		return s
 	}
+	out := func(b *ssa.BasicBlock, succIdx int) FactSet { return outFn(b, succIdx, 0) }
 	changed := true
 	for iter := 0; changed && iter < 1000; iter++ {
 		changed = false
